@@ -755,6 +755,7 @@ class StubsStringGenerator:
                 self._current_todo_msgs.add("no set support")
             elif name == "NamedSequence":
                 name = type_data["name"]
+                self._add_to_imports(type_data["qname"])
 
             if types:
                 if len(types) >= 2 and name in {"Set", "List"}:
